@@ -2154,7 +2154,7 @@ def _pyir_kw(n):
     return "[" + ",".join(k.arg for k in n.keywords) + "]", [k.value for k in n.keywords]
 
 
-_PYIR_STR_METHODS = {"split", "startswith"}
+_PYIR_STR_METHODS = {"split", "startswith", "encode"}
 
 
 class _PyIR:
@@ -2296,6 +2296,8 @@ class _PyIR:
                 return ".emptyDict"
             if f.id == "list" and not n.args:
                 return ".emptyList"
+            if f.id == "type" and len(n.args) == 1:
+                return "(.call \"type\" %s)" % self.exprs(n.args)      # only ever an argument of an exception
             if f.id in ("getattr", "setattr", "hasattr", "print", "eval", "exec", "type", "iter", "next", "super"):
                 raise _Untranslatable("builtin " + f.id)
             obj = getattr(self.module, f.id, None)
@@ -2445,6 +2447,12 @@ class _PyIR:
         if isinstance(f, ast.Attribute) and isinstance(f.value, ast.Name) and f.value.id == "log" \
                 and "log" not in self.locals and target is None:
             out.append(".emitG \"log\" %s %s" % (lean_str(f.attr + kwsfx), self.exprs(list(n.args) + kwvals)))
+            return
+        if isinstance(f, ast.Attribute) and f.attr in _PYIR_STR_METHODS and target is None and not kwsfx \
+                and isinstance(f.value, ast.Name) and f.value.id in self.locals:
+            # `<local>.encode("ascii")` evaluated for its exception only
+            self.locals.add("$_")
+            out.append(".assign \"$_\" %s" % self.call_expr(n))
             return
         if isinstance(f, ast.Name) and f.id not in self.locals and target is None \
                 and inspect.isfunction(getattr(self.module, f.id, None)):
